@@ -86,35 +86,40 @@ structure Acc where
 
 def seenLookup (seen : List (String × Nat)) (id : String) : Option Nat := seen.lookup id
 
+/-- the checks on a `<history>` element's transition (they only add issues) -/
+def histIssues (ns : Nodes) (i : Nat) (d : Doc) (a : Acc) : Acc :=
+  if d.kind.isHistory then
+    if d.trans.length > 1 then { a with issues := a.issues ++ ["hist-multi"] }
+    else match d.trans with
+      | [] => { a with issues := a.issues ++ ["hist-none"] }
+      | t :: _ =>
+        let a := if t.cond != .none then { a with issues := a.issues ++ ["hist-cond"] } else a
+        let a := if t.event.isSome then { a with issues := a.issues ++ ["hist-event"] } else a
+        match t.targets with
+        | none => { a with issues := a.issues ++ ["hist-notarget"] }
+        | some ids =>
+          let tg := ids.filterMap (getState ns)
+          let par := parentOf ns i
+          tg.foldl (fun a g =>
+            let bad := if d.kind == .hdeep then !(match par with | some p => isDescendant ns g p | none => false)
+                       else parentOf ns g != par
+            if bad then { a with issues := a.issues ++ ["hist-target"] } else a) a
+  else a
+
+/-- one element of pass 1 -/
+def stateStep (ns : Nodes) (a : Acc) (i : Nat) : Acc :=
+  match nodeAt ns i with
+  | none => a
+  | some d =>
+    if d.kind == .final && d.id == "" then a
+    else if d.id == "" then a          -- informational since the fix (no id is legal)
+    else
+      let a := histIssues ns i d a
+      if (seenLookup a.seen d.id).isSome then { a with issues := a.issues ++ ["dup"] }
+      else { a with seen := a.seen ++ [(d.id, i)] }
+
 /-- pass 1: ids, history transitions, duplicates -/
-def statePass (ns : Nodes) : Acc :=
-  (allStates ns).foldl (fun (a : Acc) i =>
-    match nodeAt ns i with
-    | none => a
-    | some d =>
-      if d.kind == .final && d.id == "" then a
-      else if d.id == "" then a          -- informational since the fix (no id is legal)
-      else
-        let a :=
-          if d.kind.isHistory then
-            if d.trans.length > 1 then { a with issues := a.issues ++ ["hist-multi"] }
-            else match d.trans with
-              | [] => { a with issues := a.issues ++ ["hist-none"] }
-              | t :: _ =>
-                let a := if t.cond != .none then { a with issues := a.issues ++ ["hist-cond"] } else a
-                let a := if t.event.isSome then { a with issues := a.issues ++ ["hist-event"] } else a
-                match t.targets with
-                | none => { a with issues := a.issues ++ ["hist-notarget"] }
-                | some ids =>
-                  let tg := ids.filterMap (getState ns)
-                  let par := parentOf ns i
-                  tg.foldl (fun a g =>
-                    let bad := if d.kind == .hdeep then !(match par with | some p => isDescendant ns g p | none => false)
-                               else parentOf ns g != par
-                    if bad then { a with issues := a.issues ++ ["hist-target"] } else a) a
-          else a
-        if (seenLookup a.seen d.id).isSome then { a with issues := a.issues ++ ["dup"] }
-        else { a with seen := a.seen ++ [(d.id, i)] }) {}
+def statePass (ns : Nodes) : Acc := (allStates ns).foldl (stateStep ns) {}
 
 def fatalIssues (d : Doc) : List String :=
   let ns : Nodes := d.preorder none 0
